@@ -210,8 +210,11 @@ def paging(cache, keys, proto, part, bad, tier):
                     [b'\xff' * 3 + bytes([i]) for i in range(fillers)]
                 for f in fill:
                     cache[f] = 0
-                cache[k] = 1
-                cache[data] = 2
+                stored = (call(cache.__setitem__, k, 1),
+                          call(cache.__setitem__, data, 2))
+                if any(isinstance(r, Raises) for r in stored):
+                    bad('store-raised', k, data, '%r' % (stored,))
+                    continue
                 want = sorted(fill + [k, data],
                               key=lambda x: sort_key(x, proto))
                 fwd = call(lambda: list(cache.iterkeys()))
